@@ -18,7 +18,7 @@ import (
 // ---- C15: effective parameters of an operation ----
 
 // parameter alternatives of one list slot
-var c15Alts = []string{"absent", "query:id", "query:limit", "header:id", "header:limit", "ref:sp", "ref:sp2", "ref:dangling", "ref:notparam", "query:ID", "header:ID", "ref:esc0", "ref:esc1", "ref:esc2", "ref:esc3"}
+var c15Alts = []string{"absent", "query:id", "query:limit", "header:id", "header:limit", "ref:sp", "ref:sp2", "ref:dangling", "ref:notparam", "query:ID", "header:ID", "ref:esc0", "ref:esc1", "ref:esc2", "ref:esc3", "query:id+ext"}
 
 // shared parameters whose names need escaping in a $ref (JSON-pointer escaping, then URL escaping, as a careful author writes them)
 var c15Esc = []struct{ Name, Ref string }{{"a/b", "#/parameters/a~1b"}, {"pet owner", "#/parameters/pet%20owner"}, {"t~x", "#/parameters/t~0x"}, {"{c}", "#/parameters/%7Bc%7D"}}
@@ -42,6 +42,10 @@ func c15Param(alt, origin string) any {
 		}
 	}
 	i := strings.Index(alt, ":")
+	if strings.HasSuffix(alt, "+ext") {
+		// the same (in, name) as the plain alternative, carrying vendor extensions (a code-generation name among them)
+		return J{"name": strings.TrimSuffix(alt[i+1:], "+ext"), "in": alt[:i], "type": "string", "description": origin, "x-go-name": "OtherName", "x-order": 7}
+	}
 	return J{"name": alt[i+1:], "in": alt[:i], "type": "string", "description": origin}
 }
 
